@@ -80,7 +80,7 @@ def run(ctx: Ctx):
         )
     ctx.assume("numpy_groupies argmax/argmin return the first occurrence (assumed contract, exercised by the bounded part)")
     ctx.trust("dask.blockwise.lol_tuples ordering", "dask tree reduction ordering", "numpy_groupies arg reductions", "z3 / cvc5")
-    return "other", ("Mixed: tree ordering / index mapping obligations proved on the real source; the end-to-end contract is a bounded stand-in. " + note)
+    return "other", ("Mixed: arg-pair algebra and global-index mapping (chunk_argreduce) proved on the real source; block order in the tree builder and the end-to-end contract are bounded stand-ins. " + note)
 
 
 def _case_of(payload):
